@@ -23,7 +23,10 @@ open Pywbem.Model Pywbem.Model.XmlText Pywbem.Proto
 
 @[simp] theorem attr_cons (k v k' : Str) (rest : List (Str × Str)) :
     Xml.attr ((k, v) :: rest) k' = if k = k' then some v else Xml.attr rest k' := by
-  by_cases h : k = k' <;> simp [Xml.attr, List.find?, h]
+  by_cases h : k = k'
+  · simp [Xml.attr, List.find?, h]
+  · have hb : (k == k') = false := by simp [h]
+    simp [Xml.attr, List.find?, h, hb]
 
 theorem attr_append (a b : List (Str × Str)) (k : Str) :
     Xml.attr (a ++ b) k = (Xml.attr a k).or (Xml.attr b k) := by
@@ -156,18 +159,21 @@ theorem checkNode_ok (n : String) (as : List (Str × Str)) (ks : List Xml) (req 
     (h3 : pc = true ∨ noText ks = true) :
     checkNode (E n as ks) n req opt allowed pc = .ok (as, ks) := by
   unfold checkNode E
-  simp only [ne_eq, not_true_eq_false, if_false, h1, Bool.not_true, Bool.false_eq_true, h2]
-  rcases h3 with h3 | h3 <;> simp [h3]
+  cases allowed with
+  | none => rcases h3 with h3 | h3 <;> simp [h1, h3] <;> rfl
+  | some a =>
+    simp at h2
+    rcases h3 with h3 | h3 <;> simp [h1, h2, h3] <;> rfl
 
 /-! ### scalar kinds -/
 
-theorem unpackBoolean_TRUE : unpackBoolean "TRUE".toList = .ok (some true) := by decide
-theorem unpackBoolean_FALSE : unpackBoolean "FALSE".toList = .ok (some false) := by decide
-theorem unpackBoolean_true : unpackBoolean "true".toList = .ok (some true) := by decide
-theorem unpackBoolean_false : unpackBoolean "false".toList = .ok (some false) := by decide
+theorem unpackBoolean_TRUE : unpackBoolean "TRUE".toList = .ok (some true) := by rfl
+theorem unpackBoolean_FALSE : unpackBoolean "FALSE".toList = .ok (some false) := by rfl
+theorem unpackBoolean_true : unpackBoolean "true".toList = .ok (some true) := by rfl
+theorem unpackBoolean_false : unpackBoolean "false".toList = .ok (some false) := by rfl
 
 theorem unpackBoolean_boolAttr (b : Bool) : unpackBoolean (boolAttr b) = .ok (some b) := by
-  cases b <;> decide
+  cases b <;> rfl
 
 theorem intTy_ofName (t : IntTy) : IntTy.ofName t.name = some t := by cases t <;> decide
 
@@ -239,33 +245,79 @@ theorem unpackNumeric_keypyfloat (C : DecCodec) (S : Spec) (hC : CodecOk C S) (b
     unfold Codec.reparseKey; exact getD_of_isSome (hC.key_parses b).2.2 _ _
   rw [e]; rfl
 
+theorem unpackSingle_string (C : DecCodec) (d : Str) : unpackSingle C d (some "string".toList) = .ok (.str d) := by
+  unfold unpackSingle
+  simp only [if_true]
+  rfl
+
+theorem unpackSingle_boolean (C : DecCodec) (d : Str) (b : Bool) (h : unpackBoolean d = .ok (some b)) :
+    unpackSingle C d (some "boolean".toList) = .ok (.bool b) := by
+  have h1 : "boolean".toList ≠ "string".toList := by decide
+  unfold unpackSingle
+  simp only [if_neg h1, if_true, h]
+  rfl
+
+theorem unpackSingle_numeric (C : DecCodec) (d ty : Str) (h1 : ty ≠ "string".toList) (h2 : ty ≠ "boolean".toList)
+    (h3 : numericTypeName ty = true) : unpackSingle C d (some ty) = unpackNumeric C d (some ty) := by
+  unfold unpackSingle
+  simp only [if_neg h1, if_neg h2, if_pos h3]
+
+theorem unpackSingle_datetime (C : DecCodec) (d : Str) (h : C.parseDt d = some d) :
+    unpackSingle C d (some "datetime".toList) = .ok (.dt d) := by
+  have h3 : ¬ (numericTypeName "datetime".toList = true) := by decide
+  have h1 : "datetime".toList ≠ "string".toList := by decide
+  have h2 : "datetime".toList ≠ "boolean".toList := by decide
+  unfold unpackSingle
+  simp only [if_neg h1, if_neg h2, if_neg h3, if_true, h]
+  rfl
+
+theorem unpackSingle_char16 (C : DecCodec) (c : Char) (h : c.toNat ≤ 0xFFFF) :
+    unpackSingle C [c] (some "char16".toList) = .ok (.char16 [c]) := by
+  have h3 : ¬ (numericTypeName "char16".toList = true) := by decide
+  have h1 : "char16".toList ≠ "string".toList := by decide
+  have h2 : "char16".toList ≠ "boolean".toList := by decide
+  have h4 : "char16".toList ≠ "datetime".toList := by decide
+  have h' : ¬ c.toNat > 0xFFFF := by omega
+  unfold unpackSingle
+  simp only [if_neg h1, if_neg h2, if_neg h3, if_neg h4, if_true, unpackChar16, if_neg h']
+  rfl
+
+theorem unpackSingle_none (C : DecCodec) (d : Str) : unpackSingle C d none = unpackNumeric C d none := rfl
+
 /-- **scalar round trip**: the text `atomic_to_cim_xml` wrote, converted back under the atom's CIM type,
     is the atom with defaults — every typed scalar kind -/
 theorem unpackSingle_atom (C : DecCodec) (S : Spec) (hC : CodecOk C S) (a : Atom) (ty : Str)
     (h : PlainAtom S ty a) : unpackSingle C (atomText C.toCodec a) (some ty) = .ok (wdAtom C.toCodec a) := by
   obtain ⟨hty, hok⟩ := h
   cases a with
-  | str s => simp [typeName] at hty; subst hty; simp [unpackSingle, atomText, wdAtom]
+  | str s =>
+    simp only [typeName, Option.some.injEq] at hty; subst hty
+    simp only [atomText, wdAtom]; exact unpackSingle_string C s
   | char16 s =>
-    simp [typeName] at hty; subst hty
+    simp only [typeName, Option.some.injEq] at hty; subst hty
     obtain ⟨c, rfl, hc⟩ := hok
-    have : ¬ c.toNat > 0xFFFF := by omega
-    simp [unpackSingle, atomText, wdAtom, numericTypeName, IntTy.ofName, IntTy.all, IntTy.name, unpackChar16, this]
+    simp only [atomText, wdAtom]; exact unpackSingle_char16 C c hc
   | bool b =>
-    simp [typeName] at hty; subst hty
-    cases b <;> simp [unpackSingle, atomText, wdAtom, unpackBoolean_TRUE, unpackBoolean_FALSE]
+    simp only [typeName, Option.some.injEq] at hty; subst hty
+    simp only [atomText, wdAtom]
+    cases b
+    · exact unpackSingle_boolean C _ false unpackBoolean_FALSE
+    · exact unpackSingle_boolean C _ true unpackBoolean_TRUE
   | int t v =>
-    simp [typeName] at hty; subst hty
+    simp only [typeName, Option.some.injEq] at hty; subst hty
     have hn := intTy_name_ne t
-    simp [unpackSingle, atomText, wdAtom, hn.1, hn.2.1, numericTypeName_int, unpackNumeric_int C t v hok]
+    simp only [atomText, wdAtom]
+    rw [unpackSingle_numeric C _ _ hn.1 hn.2.1 (numericTypeName_int t)]
+    exact unpackNumeric_int C t v hok
   | real w b =>
-    simp [typeName] at hty; subst hty
-    have := unpackNumeric_real C S hC w b
-    cases w <;> simp [unpackSingle, atomText, wdAtom, numericTypeName, IntTy.ofName, IntTy.all, IntTy.name] at this ⊢ <;> exact this
+    simp only [typeName, Option.some.injEq] at hty; subst hty
+    simp only [atomText, wdAtom]
+    rw [unpackSingle_numeric C _ _ (by cases w <;> decide) (by cases w <;> decide) (by cases w <;> decide)]
+    exact unpackNumeric_real C S hC w b
   | dt s =>
-    simp [typeName] at hty; subst hty
-    have := hC.dt_ok s hok
-    simp [unpackSingle, atomText, wdAtom, numericTypeName, IntTy.ofName, IntTy.all, IntTy.name, this]
+    simp only [typeName, Option.some.injEq] at hty; subst hty
+    simp only [atomText, wdAtom]
+    exact unpackSingle_datetime C s (hC.dt_ok s hok)
   | null => simp [typeName] at hty
   | pyint v => simp [typeName] at hty
   | pyfloat v => simp [typeName] at hty
@@ -292,84 +344,168 @@ theorem decValueText_valueElem (s : Str) : decValueText (valueElem s) = .ok s :=
 
 theorem valueElem_name (s : Str) : (valueElem s).name = "VALUE".toList := rfl
 
+theorem decArrayRaw_elem (n : Str) (as : List (Str × Str)) (kk ks : List Xml) :
+    decArrayRaw (.elem n as kk :: ks) =
+      if n = "VALUE".toList then do
+        let s ← decValueText (.elem n as kk)
+        let rest ← decArrayRaw ks
+        pure (some s :: rest)
+      else if n = "VALUE.NULL".toList then do
+        let _ ← checkNode (.elem n as kk) "VALUE.NULL" [] [] (some []) false
+        let rest ← decArrayRaw ks
+        pure (none :: rest)
+      else perr := by
+  rfl
+
+theorem decArrayRaw_cons_value (s : Str) (ks : List Xml) :
+    decArrayRaw (valueElem s :: ks) = (do let rest ← decArrayRaw ks; pure (some s :: rest)) := by
+  have h := decValueText_valueElem s
+  unfold valueElem E at *
+  rw [decArrayRaw_elem, if_pos rfl, h]
+  rfl
+
+theorem checkNode_valueNull :
+    checkNode (E "VALUE.NULL" [] []) "VALUE.NULL" [] [] (some []) false = .ok ([], []) :=
+  checkNode_ok "VALUE.NULL" [] [] [] [] (some []) false (by decide) (by decide) (Or.inr (by decide))
+
+theorem decArrayRaw_cons_null (ks : List Xml) :
+    decArrayRaw (E "VALUE.NULL" [] [] :: ks) = (do let rest ← decArrayRaw ks; pure (none :: rest)) := by
+  have hnull := checkNode_valueNull
+  have h1 : "VALUE.NULL".toList ≠ "VALUE".toList := by decide
+  unfold E at *
+  rw [decArrayRaw_elem, if_neg h1, if_pos rfl, hnull]
+  rfl
+
+theorem encArrItem_null (C : Codec) : encArrItem C .null = E "VALUE.NULL" [] [] := by
+  simp [encArrItem, Pywbem.Generated.sendValueNull]
+
+theorem encArrItem_ne_null (C : Codec) (a : Atom) (h : a ≠ .null) :
+    encArrItem C a = valueElem (atomText C a) := by
+  cases a <;> simp [encArrItem] at h ⊢
+
+/-- the raw text (or None) the receiver extracts for an array entry -/
+def rawItem (C : Codec) (a : Atom) : Option Str :=
+  match a with | .null => none | a => some (atomText C a)
+
+theorem rawItem_ne_null (C : Codec) (a : Atom) (h : a ≠ .null) : rawItem C a = some (atomText C a) := by
+  cases a <;> simp [rawItem] at h ⊢
+
 theorem decArrayRaw_items (C : Codec) (l : List Atom) :
-    decArrayRaw (encArrItems C l) =
-      .ok (l.map (fun a => match a with | .null => none | a => some (atomText C a))) := by
+    decArrayRaw (encArrItems C l) = .ok (l.map (rawItem C)) := by
   induction l with
   | nil => simp [encArrItems, decArrayRaw]
   | cons a l ih =>
-    have hnull : checkNode (E "VALUE.NULL" [] []) "VALUE.NULL" [] [] (some []) false = .ok ([], []) :=
-      checkNode_ok "VALUE.NULL" [] [] [] [] (some []) false (by decide) (by decide) (Or.inr (by decide))
-    cases a <;>
-      simp [encArrItems, encArrItem, decArrayRaw, valueElem_name, decValueText_valueElem, ih,
-        Pywbem.Generated.sendValueNull, E, Xml.name] <;>
-      (first | (rw [show Xml.elem "VALUE.NULL".toList [] [] = E "VALUE.NULL" [] [] from rfl, hnull]; simp) | skip)
+    by_cases ha : a = .null
+    · subst ha
+      simp only [encArrItems, encArrItem_null, decArrayRaw_cons_null, ih, bind_ok, pure_eq_ok, List.map_cons]
+      rfl
+    · simp only [encArrItems, encArrItem_ne_null C a ha, decArrayRaw_cons_value, ih, bind_ok, pure_eq_ok,
+        List.map_cons, rawItem_ne_null C a ha]
+
+theorem noText_encArrItems (C : Codec) (l : List Atom) : noText (encArrItems C l) = true := by
+  induction l with
+  | nil => simp [encArrItems, noText]
+  | cons a l ih =>
+    have e : noText (encArrItems C (a :: l)) = (noText [encArrItem C a] && noText (encArrItems C l)) := by
+      simp [noText, encArrItems]
+    rw [e, ih]
+    by_cases ha : a = .null
+    · subst ha; rw [encArrItem_null]; rfl
+    · rw [encArrItem_ne_null C a ha]; rfl
 
 theorem unpackItems_plain (C : DecCodec) (S : Spec) (hC : CodecOk C S) (ty : Str) (l : List Atom)
     (h : ∀ a ∈ l, a = Atom.null ∨ PlainAtom S ty a) :
-    unpackItems C ty (l.map (fun a => match a with | .null => none | a => some (atomText C.toCodec a))) =
-      .ok (wdAtoms C.toCodec l) := by
+    unpackItems C ty (l.map (rawItem C.toCodec)) = .ok (wdAtoms C.toCodec l) := by
   induction l with
   | nil => simp [unpackItems, wdAtoms]
   | cons a l ih =>
     have ih' := ih (fun x hx => h x (by simp [hx]))
     rcases h a (by simp) with rfl | ha
-    · simp [unpackItems, wdAtoms, wdAtom, ih']
+    · simp only [List.map_cons, rawItem, unpackItems, ih', bind_ok, pure_eq_ok, wdAtoms, wdAtom]
     · have hs := unpackSingle_atom C S hC a ty ha
-      have hne : ∀ p, a ≠ .ref p := plainAtom_not_ref S a ty ha
-      obtain ⟨hty, _⟩ := ha
-      cases a <;> simp [typeName] at hty <;> simp [unpackItems, wdAtoms, ih'] <;> simp [hs]
+      have hne : a ≠ .null := by
+        intro e; subst e; exact absurd ha.1 (by simp [typeName])
+      simp only [List.map_cons, rawItem_ne_null _ a hne, unpackItems, hs, ih', bind_ok, pure_eq_ok, wdAtoms]
 
 theorem decRawVals_nil : decRawVals [] = .ok [] := rfl
 
-theorem decRawVals_scalar (s : Str) : decRawVals [valueElem s] = .ok [.scalar s] := by
-  simp [decRawVals, valueElem_name, decValueText_valueElem]
+theorem decRawVals_elem (n : Str) (as : List (Str × Str)) (kk ks : List Xml) :
+    decRawVals (.elem n as kk :: ks) =
+      if n = "VALUE".toList then do
+        let s ← decValueText (.elem n as kk)
+        let rest ← decRawVals ks
+        pure (.scalar s :: rest)
+      else if n = "VALUE.ARRAY".toList then do
+        let (_, aks) ← checkNode (.elem n as kk) "VALUE.ARRAY" [] [] none false
+        let l ← decArrayRaw aks
+        let rest ← decRawVals ks
+        pure (.array l :: rest)
+      else decRawVals ks := by
+  rfl
 
-theorem decRawVals_array (C : Codec) (l : List Atom) :
-    decRawVals [E "VALUE.ARRAY" [] (encArrItems C l)] =
-      .ok [.array (l.map (fun a => match a with | .null => none | a => some (atomText C a)))] := by
+theorem decRawVals_cons_value (s : Str) (ks : List Xml) :
+    decRawVals (valueElem s :: ks) = (do let rest ← decRawVals ks; pure (.scalar s :: rest)) := by
+  have h := decValueText_valueElem s
+  unfold valueElem E at *
+  rw [decRawVals_elem, if_pos rfl, h]
+  rfl
+
+theorem decRawVals_cons_array (C : Codec) (l : List Atom) (ks : List Xml) :
+    decRawVals (E "VALUE.ARRAY" [] (encArrItems C l) :: ks) =
+      (do let rest ← decRawVals ks; pure (.array (l.map (rawItem C)) :: rest)) := by
   have hc : checkNode (E "VALUE.ARRAY" [] (encArrItems C l)) "VALUE.ARRAY" [] [] none false =
-      .ok ([], encArrItems C l) := by
-    apply checkNode_ok _ _ _ _ _ _ _ (by decide) (by rfl)
-    right
-    unfold noText
-    simp only [List.all_eq_true]
-    intro k hk
-    induction l with
-    | nil => simp [encArrItems] at hk
-    | cons a l ih =>
-      simp [encArrItems] at hk
-      rcases hk with rfl | hk
-      · cases a <;> simp [encArrItem, E, valueElem, Pywbem.Generated.sendValueNull]
-      · exact ih hk
-  simp [decRawVals, E, Xml.name]
-  rw [show Xml.elem "VALUE.ARRAY".toList [] (encArrItems C l) = E "VALUE.ARRAY" [] (encArrItems C l) from rfl, hc]
-  simp [decArrayRaw_items]
+      .ok ([], encArrItems C l) :=
+    checkNode_ok _ _ _ _ _ _ _ (by decide) (by rfl) (Or.inr (noText_encArrItems C l))
+  have h1 : "VALUE.ARRAY".toList ≠ "VALUE".toList := by decide
+  unfold E at *
+  rw [decRawVals_elem, if_neg h1, if_pos rfl, hc]
+  simp only [bind_ok, decArrayRaw_items]
+
+/-- elements of another name are skipped by `list_of_matching(('VALUE','VALUE.ARRAY'))` -/
+theorem decRawVals_skip (l ks : List Xml) (names : List String) (h : AllNames l names)
+    (h1 : "VALUE" ∉ names) (h2 : "VALUE.ARRAY" ∉ names) : decRawVals (l ++ ks) = decRawVals ks := by
+  induction l with
+  | nil => rfl
+  | cons k l ih =>
+    obtain ⟨he, hn⟩ := h k (by simp)
+    cases k with
+    | text s => simp [Xml.isElem] at he
+    | elem n as kk =>
+      simp only [Xml.name, List.mem_map] at hn
+      obtain ⟨nm, hnm, e⟩ := hn
+      have n1 : n ≠ "VALUE".toList := by
+        intro e2; rw [e2] at e; exact h1 (by rw [← String.toList_inj.mp e]; exact hnm)
+      have n2 : n ≠ "VALUE.ARRAY".toList := by
+        intro e2; rw [e2] at e; exact h2 (by rw [← String.toList_inj.mp e]; exact hnm)
+      rw [List.cons_append, decRawVals_elem, if_neg n1, if_neg n2]
+      exact ih (allNames_tail h)
+
+theorem encVal_scalar_plain (C : Codec) (S : Spec) (a : Atom) (ty : Str) (ha : PlainAtom S ty a) :
+    encVal C (.scalar a) = [valueElem (atomText C a)] := by
+  obtain ⟨hty, _⟩ := ha
+  cases a <;> simp [typeName] at hty <;> simp [encVal]
 
 /-- **typed value round trip** (qualifier / property / qualifier-declaration values without embedded
-    objects): NULL, scalars of every kind, arrays including NULL entries and the empty array -/
+    objects): NULL, scalars of every kind, arrays including NULL entries and the empty array;
+    `pre` are sibling elements of other names that precede the value (qualifiers, SCOPE) -/
 theorem unpackValue_plain (C : DecCodec) (S : Spec) (hC : CodecOk C S) (ty : Str) (v : Val)
-    (h : PlainVal S ty v) : unpackValue C ty (encVal C.toCodec v) = .ok (wdVal C.toCodec v) := by
+    (h : PlainVal S ty v) (pre : List Xml) (names : List String) (hpre : AllNames pre names)
+    (h1 : "VALUE" ∉ names) (h2 : "VALUE.ARRAY" ∉ names) :
+    unpackValue C ty (pre ++ encVal C.toCodec v) = .ok (wdVal C.toCodec v) := by
+  unfold unpackValue
+  rw [decRawVals_skip pre _ names hpre h1 h2]
   cases v with
-  | null => simp [encVal, unpackValue, decRawVals, wdVal]
+  | null => simp [encVal, decRawVals, wdVal]
   | scalar a =>
     have ha : PlainAtom S ty a := h
     have hs := unpackSingle_atom C S hC a ty ha
     have hne := wdAtom_plain_ne_null C.toCodec S a ty ha
-    have henc : encVal C.toCodec (.scalar a) = [valueElem (atomText C.toCodec a)] := by
-      obtain ⟨hty, _⟩ := ha
-      cases a <;> simp [typeName] at hty <;> simp [encVal]
-    rw [henc]
-    unfold unpackValue
-    rw [decRawVals_scalar]
-    simp only [bind_ok, hs, wdVal]
-    cases hw : wdAtom C.toCodec a <;> simp_all
+    rw [encVal_scalar_plain C.toCodec S a ty ha, decRawVals_cons_value]
+    simp only [decRawVals_nil, bind_ok, pure_eq_ok, hs, wdVal]
   | array l =>
     have hl : ∀ a ∈ l, a = Atom.null ∨ PlainAtom S ty a := h
     simp only [encVal]
-    unfold unpackValue
-    rw [decRawVals_array]
-    simp only [bind_ok, unpackItems_plain C S hC ty l hl, wdVal]
-    rfl
+    rw [decRawVals_cons_array]
+    simp only [decRawVals_nil, bind_ok, pure_eq_ok, unpackItems_plain C S hC ty l hl, wdVal]
 
 end Proofs.CimXml
